@@ -12,10 +12,14 @@ def jobs_for(ctx):
 
 
 def run(ctx):
+    import os
     rp = ml.build(ctx)
     jobs = jobs_for(ctx)
     if ctx.quick:
         ctx.exhaustive = False
-    ml.run_mixes(ctx, rp, jobs, max_paths=500 if ctx.quick else 20000)
+    if not os.environ.get("ONLY_ROUNDS"):
+        ml.run_mixes(ctx, rp, jobs, max_paths=500 if ctx.quick else 20000)
+    # several rounds per party (ownership and awaiter objects reused), run-queue hand-over, release on a helper thread
+    ml.run_rounds_all(ctx, rp, ml.ROUNDS_QUICK if ctx.quick else ml.ROUNDS_QUICK + ml.ROUNDS_MORE, max_paths=400 if ctx.quick else 20000)
     ctx.assume("compare_exchange_weak does not fail spuriously (x86-64 lock cmpxchg); weak CAS is executed as strong under the controlled scheduler")
-    ctx.assume("each party performs one lock/critical-section/release round")
+    ctx.assume("finest grain: one round per party for up to 4 parties (Mutex.tla), 2-3 rounds for 2-3 parties (MutexRounds.tla)")
